@@ -634,7 +634,11 @@ class World:
         self.tmpdir = tempfile.mkdtemp(prefix='vsim_')
         self.rules_path = None
         self.rpc_seq = 0
-        self.max_steps = scenario.get('max_steps', 90000)
+        # normal executions stay below 10000 scheduler steps and a few hundred start requests (measured); a restart
+        # storm (e.g. a program that cannot be spawned with a RESTART_APPLICATION strategy) is cut
+        self.max_steps = scenario.get('max_steps', 30000)
+        self.max_start_requests = scenario.get('max_start_requests', 4000)
+        self.start_requests_seen = 0
         self.restart_delay = sched.get('restart_delay', (0.5, 3.0))
         self.auto_reboot = scenario.get('auto_reboot', True)
         self.msg_filter = None   # callable(world, src_inst, dst_identifier, method, args) -> 'drop' | None
@@ -702,6 +706,8 @@ class World:
             self.steps += 1
             if self.steps > self.max_steps:
                 raise Runaway(f'more than {self.max_steps} scheduler steps')
+            if self.start_requests_seen > self.max_start_requests:
+                raise Runaway(f'more than {self.max_start_requests} start requests')
             if stop is not None and stop():
                 return True
         if t_end > self.now:
@@ -1015,6 +1021,8 @@ class World:
             cbs = world.hook_cbs
 
             def wrapper(*args, **kw):
+                if name == 'send_start_process':
+                    world.start_requests_seen += 1
                 world.emit('hook', name=name, inst=inst.nick, inc=inst.inc,
                            args=args if name.startswith('send_') else None)
                 for cb in cbs.get(name, ()):
